@@ -185,7 +185,7 @@ int main(int argc, char **argv) {
 		uint64_t idx = 0;
 		if (!strcmp(mode, "seq") || !strcmp(mode, "pool")) {
 			int pool = !strcmp(mode, "pool");
-			int maxn = pool ? (vh_thorough ? 5 : 4) : (vh_thorough ? 8 : 6);
+			int maxn = pool ? (vh_thorough ? 5 : 4) : (vh_thorough ? 9 : 6);
 			static const int POOLS[] = { 1, 2, 8 };
 			for (int pi = 0; pi < (pool ? 3 : 1); pi++)
 			for (int n = 0; n <= maxn; n++) {
@@ -197,7 +197,7 @@ int main(int argc, char **argv) {
 					c.pool = pool ? POOLS[pi] : 0; c.vpad = 0; c.nomerge = 0;
 					size_t cost = 0; for (int i = 0; i < n; i++) cost += 16 + SK[c.key[i]].n + 2;
 					/* every budget from 1 byte to just above everything-in-memory */
-					for (size_t M = 1; M <= cost + 2; M += pool ? 5 : (vh_thorough ? (n > 6 ? 7 : 1) : (n > 5 ? 3 : 1))) for (int md = 0; md < 2; md++) { c.M = M; c.mode = md; run(&c); }
+					for (size_t M = 1; M <= cost + 2; M += pool ? 5 : (vh_thorough ? (n > 8 ? 19 : n > 6 ? 7 : 1) : (n > 5 ? 3 : 1))) for (int md = 0; md < 2; md++) { c.M = M; c.mode = md; run(&c); }
 					/* shrinking merge results (in-place update paths): unary values of length 2^i, budgets from one entry per chunk to everything in memory */
 					if (n && n <= 7) { c.mstyle = 1; size_t cost2 = 0; for (int i = 0; i < n; i++) cost2 += 16 + SK[c.key[i]].n + ((size_t) 1 << i); for (size_t M = 1; M <= cost2 + 2; M += 1 + cost2 / 24) { c.M = M; c.mode = (int) (M & 1); run(&c); } c.mstyle = 0; }
 					/* no merge function: legal when all keys are distinct */
